@@ -1,7 +1,7 @@
 """C13 — point containment predicates (structural clauses)."""
 from . import scopes
 from ..core.report import DOMAIN_D
-from ..rules import colliders, frame, degree
+from ..rules import colliders, frame, degree, affine
 from .common import e2
 
 MODS = {"distance3d.containment_test", "distance3d.utils"}
@@ -18,6 +18,7 @@ def run(idx, rep, tier):
     rep.assumptions = DOMAIN_D
     colliders.r_closedset(idx, rep)
     colliders.r_axis(idx, rep)
+    affine.r_originfree(idx, rep, ["distance3d.containment_test", "distance3d.mesh"], floor=6)
     fr_rets = e2(idx)
     frame.r_frame(idx, rep, fr_rets, modules=MODS, floor=8)
     degree.r_degree(idx, rep, modules=sorted(MODS), floor=8)
